@@ -3,6 +3,7 @@ use crate::engine::RunCtx;
 pub mod c04;
 pub mod c05;
 pub mod c06;
+pub mod c17;
 pub mod c27;
 
 pub struct Entry {
@@ -15,6 +16,7 @@ pub const REGISTRY: &[Entry] = &[
     Entry { id: "C04", level: "exploration", run: c04::run },
     Entry { id: "C05", level: "exploration", run: c05::run },
     Entry { id: "C06", level: "exploration", run: c06::run },
+    Entry { id: "C17", level: "fault_enumeration", run: c17::run },
     Entry { id: "C27", level: "exploration", run: c27::run },
 ];
 
